@@ -8,6 +8,7 @@ import (
 
 	"verif/internal/core"
 	"verif/internal/eng"
+	"verif/internal/sched"
 )
 
 // C09 — counting windows: per key, the i-th delivery aggregates rows (i-1)N+1..iN of that key.
@@ -109,11 +110,19 @@ func runC09(ctx *core.Ctx) {
 		"non-trivial = at least 2 deliveries observed and at least 2 distinct keys or a trailing remainder; distinct by (SQL, rows) hash")
 	ctx.Assume("a missing delivery is declared only after the engine stayed quiet for >5 s with empty buffers",
 		"surplus deliveries that arrive after the settle period are not seen")
+	// yield-point perturbation of the Add → trigger-channel → window-goroutine hand-off
+	sched.Seed(ctx.Seed*131 + 9)
+	sched.Set(&sched.Perturb{Prob: map[string]float64{"counting.add": 0.02, "proc.chan_read": 0.01}, MaxSleep: 100 * time.Microsecond})
+	defer sched.Set(nil)
 	n := ctx.N(2000, 60000)
 	ctx.Cases("c09", n, workers(), func(i int, r *rand.Rand) {
 		c := genC09(core.CaseRef{Stream: "c09", Index: i}, r)
 		execC09(ctx, c)
 	})
+	for k, v := range sched.Hits() {
+		ctx.Count("hook_hits."+k, v)
+	}
+	ctx.Count("perturbation_actions", sched.Acted())
 }
 
 func execC09(ctx *core.Ctx, c *c09Case) {
